@@ -459,14 +459,21 @@ def force_only_from_delete_job(prog, an, rep):
     # tag name derives from the deleted branch's version; tag is put on it
     for t in tag_create:
         a = t.call.args[0]
-        hole = a.right if isinstance(a, ast.BinOp) else None
-        names = [hole] if hole is not None else list(t.call.args[1:])
+        tpl = string_template(a)
+        names = (list(tpl[1]) if tpl is not None else []) + \
+            list(t.call.args[1:])
         ok = False
         for nm in names:
             if isinstance(nm, ast.Name):
                 vals = [src(v) for _, v in stores_to(job, nm.id)
                         if v is not None]
-                ok = any('.version' in v for v in vals)
+                # (a value built from the name itself extends the tag)
+                ok = any('.version' in v for v in vals) and all(
+                    '.version' in v or nm.id in
+                    {x.id for x in ast.walk(ast.parse(v, mode='eval'))
+                     if isinstance(x, ast.Name)} for v in vals)
+            elif nm is not None and '.version' in src(nm):
+                ok = True
         rep.check(ok, 'C08.ARG.archive-tag', job.qname + ': tag named after '
                   'the deleted version', t.where, 'archive tag name does '
                   'not derive from <branch>.version')
